@@ -50,6 +50,30 @@ pub fn run(mode: &str, tasks: usize, seed: u64) -> String {
                 .collect();
             hs.into_iter().map(|h| h.join().unwrap_or_default()).collect()
         }
+        "churn" => {
+            // a few caller threads, many rounds each, with thread counts that differ between the callers and change from
+            // round to round (out of phase): the shared pool is rebuilt again and again while other callers are between
+            // their size check and their `install`
+            let avail = rayon::current_num_threads().max(2);
+            let rounds = 60;
+            let hs: Vec<_> = (0..tasks)
+                .map(|t| {
+                    std::thread::spawn(move || {
+                        let mut last = Vec::new();
+                        for k in 0..rounds {
+                            let thr = 2 + (t + k) % 2.min(avail - 1).max(1);
+                            let r = run_task(seed, t, Some(thr.min(avail)));
+                            if k > 0 && r != last {
+                                return Vec::new();
+                            }
+                            last = r;
+                        }
+                        last
+                    })
+                })
+                .collect();
+            hs.into_iter().map(|h| h.join().unwrap_or_default()).collect()
+        }
         "rayon" => (0..tasks).into_par_iter().map(|t| run_task(seed, t, None)).collect(),
         _ => {
             // nested: a private pool whose workers each drive registers
